@@ -480,6 +480,15 @@ func (w *World) BuildBlock(ab *ABlock, h *BuildHooks) (*types.Block, types.Recei
 	if cb == nil {
 		return nil, nil, fmt.Errorf("unknown coinbase %q", ab.Cb)
 	}
+	// a real engine never selects a proposer that is not a validator (the history cannot know whom the previous block
+	// removed): fall back to g1
+	if pst, err := bc.State(); err == nil && pst.GetValidatorByMainAddr(cb.Addr) == nil {
+		cb = w.Who["g1"]
+		ab.Cb = "g1"
+		if pst.GetValidatorByMainAddr(cb.Addr) == nil {
+			return nil, nil, fmt.Errorf("no validator left to propose")
+		}
+	}
 	hdr := &types.Header{ParentHash: parent.Hash(), Number: num, Time: parent.Time() + 10, Coinbase: cb.Addr,
 		GasLimit: core.CalcGasLimit(parent), GasRewards: big.NewInt(0), Subsidy: big.NewInt(0), Extra: []byte{}}
 	if err := core.ProcessYouVersionState(parent.Header(), hdr); err != nil {
